@@ -125,7 +125,9 @@ fn fam_cfg(ctx: &mut Ctx, f: &Fam) -> (Vec<u64>, u64) {
             (vec![b], 1 << b)
         }
         "qf" => {
-            let (q, r) = (ctx.rng.range(1, 5), ctx.rng.range(1, 6));
+            // mostly tiny fingerprints (collisions); one in four with wide remainders (33..60 bits)
+            let q = ctx.rng.range(1, 5);
+            let r = if ctx.rng.chance(1, 4) { *ctx.rng.pick(&[33u64, 40, 58, 64 - q]) } else { ctx.rng.range(1, 6) };
             (vec![q, r], 1 << q)
         }
         _ => {
@@ -172,7 +174,7 @@ pub fn gen_c06_qf_lastslot(ctx: &mut Ctx, ncases: u64) {
     for c in 0..ncases {
         ctx.case("c06.qf.lastslot");
         ctx.hasher(ScriptBH::xor());
-        let (q, r) = (ctx.rng.range(2, 4), ctx.rng.range(2, 4));
+        let (q, r) = (ctx.rng.range(2, 4), if c % 3 == 2 { *ctx.rng.pick(&[33u64, 40, 58]) } else { ctx.rng.range(2, 4) });
         let n = 1u64 << q;
         for id in 1..=4 {
             ctx.op(format!("qf.new {} {} {}", id, q, r));
@@ -182,7 +184,7 @@ pub fn gen_c06_qf_lastslot(ctx: &mut Ctx, ncases: u64) {
         let start = if c % 2 == 0 { n - 1 } else { n - 2 };
         let mut sb = vec![];
         for i in 0..ctx.rng.clone().range(2, 4) {
-            sb.push(qf_key(ctx, q, r, start, (i + 1) % (1 << r)));
+            sb.push(qf_key(ctx, q, r, start, ((i + 1) | if r > 32 { 1u64 << (r - 1) } else { 0 }) % (1u64 << r)));
         }
         if ctx.rng.chance(1, 2) {
             sb.push(qf_key(ctx, q, r, 0, 1));
@@ -812,10 +814,78 @@ pub fn lossy_long(ctx: &mut Ctx, ncases: u64) {
     }
 }
 
+/// Harmonic build-up: in window i of B, about width/(B-i+2) new elements with B-i+2 occurrences
+/// each (all of them survive every prune), then a window of never-seen elements: the table grows
+/// to about width*(H_B + 1) entries, close to its bound and far above 2*width, before the next prune.
+pub fn lossy_harmonic(ctx: &mut Ctx, ncases: u64) {
+    for c in 0..ncases {
+        ctx.case("lossy.harmonic");
+        let w = *ctx.rng.pick(&[12u64, 20, 30, 60]);
+        let bwin = 4 + c % 3;
+        ctx.op(format!("lossy.neww 1 {}", w));
+        ctx.op("lossy.getters 1".into());
+        let mut next_id = 1000u64;
+        let mut t = 0u64;
+        for i in 1..=bwin {
+            let occ = bwin - i + 2;
+            let m = (w - 1) / occ;
+            let mut win: Vec<u64> = vec![];
+            for _ in 0..m {
+                for _ in 0..occ {
+                    win.push(next_id);
+                }
+                next_id += 1;
+            }
+            // an element seen once per window (pruned each time), then singletons up to the window end
+            win.push(7);
+            while (win.len() as u64) < w {
+                win.push(next_id);
+                next_id += 1;
+            }
+            // interleave deterministically
+            for j in (1..win.len()).rev() {
+                let k = ctx.rng.below(j as u64 + 1) as usize;
+                win.swap(j, k);
+            }
+            for x in win.iter().take(w as usize) {
+                ctx.op(format!("lossy.add 1 {}", x));
+                t += 1;
+                if t % 7 == 0 {
+                    ctx.op(format!("lossy.query 1 {}", fx(0.0)));
+                }
+            }
+            ctx.op(format!("lossy.query 1 {}", fx(0.0)));
+        }
+        // the window of fresh elements, with a recurring element in between
+        for j in 0..(2 * w) {
+            let x = if j % 9 == 4 { 7 } else { next_id + j };
+            ctx.op(format!("lossy.add 1 {}", x));
+            if j % 5 == 0 {
+                ctx.op(format!("lossy.query 1 {}", fx(0.0)));
+                let thr = (ctx.rng.below(9) as f64) / 64.0;
+                ctx.op(format!("lossy.query 1 {}", fx(thr)));
+            }
+        }
+        ctx.op(format!("lossy.query 1 {}", fx(0.0)));
+        ctx.op("lossy.n 1".into());
+        ctx.stat("lossy.harmonic", 1);
+    }
+}
+
 pub fn gen_c09(ctx: &mut Ctx) {
     for _ in 0..(60 * ctx.tier_scale) {
         ctx.case("lossy");
         lossy_history(ctx, 400);
+    }
+    lossy_harmonic(ctx, 6 * ctx.tier_scale.min(4));
+    // width 1 (epsilon = 1): every add closes a window
+    ctx.case("lossy.w1");
+    ctx.op("lossy.neww 1 1".into());
+    ctx.op("lossy.getters 1".into());
+    for i in 0..12u64 {
+        ctx.op(format!("lossy.add 1 {}", i % 3));
+        ctx.op("lossy.n 1".into());
+        ctx.op(format!("lossy.query 1 {}", fx(0.0)));
     }
     lossy_long(ctx, 3 * ctx.tier_scale.min(4));
 }
@@ -980,6 +1050,20 @@ pub fn gen_c19(ctx: &mut Ctx) {
             }
             observe_both(ctx, f, 1, 6, &keys.univ);
             observe_both(ctx, f, 1, 7, &keys.univ);
+            // content that arrives only through merge/union counts as content (is_empty, ==)
+            fam_new(ctx, f, 8, &cfg);
+            ctx.op(format!("{}.empty 8", f.name));
+            ctx.op(format!("{} 8 1", f.merge));
+            ctx.op(format!("both {}.empty 8 1", f.name));
+            if f.name == "hll" {
+                ctx.op("hll.eq 8 1".into());
+            }
+            ctx.op(format!("{}.clear 8", f.name));
+            ctx.op(format!("{}.empty 8", f.name));
+            ctx.op(format!("{} 8 2", f.merge)); // merging a fresh one keeps it empty
+            ctx.op(format!("{}.empty 8", f.name));
+            ctx.op(format!("{} 8 1", f.merge));
+            ctx.op(format!("both {}.empty 8 1", f.name));
             // clear vs fresh, then the same continuation on both
             ctx.op(format!("{}.clear 1", f.name));
             observe_both(ctx, f, 1, 2, &keys.univ);
@@ -1059,6 +1143,35 @@ pub fn gen_c19(ctx: &mut Ctx) {
             for i in 0..=8 {
                 ctx.op(format!("both td.quantile 1 2 {}", fx(i as f64 / 8.0)));
                 ctx.op(format!("both td.cdf 1 2 {}", fx(i as f64 * 6.0)));
+            }
+        }
+        // cuckoo tables whose slot count x fingerprint width is not a whole number of 64-bit blocks
+        // (odd widths, small tables): everything, including the last partial block, is reset by clear
+        for (bs, nb, lf) in [(2u64, 4u64, 5u64), (2, 2, 3), (4, 8, 9), (4, 8, 7), (3, 4, 11), (2, 8, 13), (2, 16, 5), (4, 4, 9)] {
+            ctx.case("c19.cuckoo.odd");
+            let bh = ctx.rand_hasher();
+            ctx.hasher(bh);
+            ctx.op(format!("cuckoo.new 1 7 {} {} {}", bs, nb, lf));
+            ctx.op(format!("cuckoo.new 2 7 {} {} {}", bs, nb, lf));
+            let cap = bs * nb;
+            let keys: Vec<u64> = (0..(2 * cap + 4)).map(|_| ctx.rng.below(1000)).collect();
+            for k in &keys {
+                ctx.op(format!("cuckoo.insert 1 {}", k));
+            }
+            ctx.op("cuckoo.clear 1".into());
+            ctx.op("both cuckoo.len 1 2".into());
+            ctx.op("both cuckoo.empty 1 2".into());
+            for k in &keys {
+                ctx.op(format!("both cuckoo.query 1 2 {}", k));
+            }
+            // room for copies of one element (no eviction can help: independent of the RNG position)
+            for k in keys.iter().take(3) {
+                for _ in 0..(2 * bs + 1) {
+                    ctx.op(format!("both cuckoo.insert 1 2 {}", k));
+                }
+                ctx.op("both cuckoo.len 1 2".into());
+                ctx.op("cuckoo.clear 1".into());
+                ctx.op("cuckoo.clear 2".into());
             }
         }
         // reservoir: RNG-free continuation (fill phase) after clear; clone independence
@@ -1254,6 +1367,33 @@ pub fn gen_c20(ctx: &mut Ctx) {
             }
         }
     }
+    for (b, len) in [((1u64 << 32) + 4, 16u64), ((1u64 << 33) + 5, 32), ((1u64 << 63) + 4, 16), ((1u64 << 32) + 18, 16), (u64::MAX - 11, 16), (68, 16), (64 + 4, 16), (256 + 4, 16)] {
+        ctx.case("c20.bigb");
+        let regs: Vec<String> = (0..len).map(|i| (i % 3).to_string()).collect();
+        let a = ctx.op(format!("hll.deser 1 R:{} B:{} H:1,0,64,0", regs.join(","), b));
+        ctx.stat(&format!("c20.deser.{}", a), 1);
+        if a == "ok" {
+            ctx.op("hll.regs 1".into());
+            ctx.op("hll.addh 1 12345".into());
+            ctx.op("hll.count 1".into());
+        }
+    }
+    // `b` omitted, register counts that are / are not powers of two
+    for len in [0u64, 1, 2, 4, 8, 16, 32, 48, 256] {
+        ctx.case("c20.nob");
+        let regs: Vec<String> = (0..len).map(|i| (i % 3).to_string()).collect();
+        for order in 0..2 {
+            let mut fields = vec![format!("R:{}", regs.join(",")), "H:1,0,64,0".to_string()];
+            fields.rotate_left(order);
+            let a = ctx.op(format!("hll.deser 1 {}", fields.join(" ")));
+            ctx.stat(&format!("c20.deser.{}", a), 1);
+            if a == "ok" {
+                ctx.op("hll.regs 1".into());
+                ctx.op("hll.count 1".into());
+                ctx.op("hll.addh 1 12345".into());
+            }
+        }
+    }
     ctx.case("c20.nonstruct");
     ctx.op("hll.deser 1 N".into());
     ctx.op("hll.deser 1 A".into());
@@ -1334,6 +1474,20 @@ pub fn gen_c03(ctx: &mut Ctx) {
             ctx.op("hll.count 1".into());
         }
         ctx.stat(&format!("c03.b.{}", b), 1);
+        // two loaded sketches (both beyond the linear-counting range) merged vs the sketch that
+        // saw both streams
+        let n1 = (3 * m).min(150_000);
+        let (sa, sb) = (ctx.rng.next(), ctx.rng.next());
+        for id in [2, 3, 4] {
+            ctx.op(format!("hll.new {} {}", id, b));
+        }
+        ctx.op(format!("hll.addmany 2 {} {}", sa, n1));
+        ctx.op(format!("hll.addmany 3 {} {}", sb, n1));
+        ctx.op(format!("hll.addmany 4 {} {}", sa, n1));
+        ctx.op(format!("hll.addmany 4 {} {}", sb, n1));
+        ctx.op("hll.merge 2 3".into());
+        ctx.op("both hll.count 2 4".into());
+        ctx.op("both hll.regs 2 4".into());
     }
     // clone_from between sketches with different hashers (and precisions), then the known keys
     // again: nothing may be counted twice
@@ -1470,6 +1624,22 @@ pub fn gen_c07(ctx: &mut Ctx) {
                     ctx.op(format!("both bloom.query 3 4 {}", i * 3 + 1));
                 }
             }
+        }
+    }
+    // quotient filters at the widest fingerprints the constructor admits (q + r = 64) and below
+    for (q, r) in [(8u64, 56u64), (4, 60), (1, 63), (10, 54), (8, 55), (6, 8)] {
+        ctx.case("c07.qf.wide");
+        let bh = ctx.rand_hasher();
+        ctx.hasher(bh);
+        ctx.op(format!("qf.new 1 {} {}", q, r));
+        ctx.op("qf.getters 1".into());
+        let cap = 1u64 << q;
+        for i in 0..cap.min(40) {
+            ctx.op(format!("qf.insert 1 {}", ctx.rng.clone().next() ^ i));
+        }
+        ctx.op("qf.len 1".into());
+        for _ in 0..40 {
+            ctx.op(format!("qf.query 1 {}", ctx.rng.clone().next()));
         }
     }
     // invalid arguments
